@@ -65,39 +65,131 @@ def check_pair_matrix(run, pkg, attrs, ndim):
     if len(it.returns) != 1 or it.returns[0].data["value"][0] != "tuple" or len(it.returns[0].data["value"][1]) != 2:
         raise AnalysisError("pair_matrix: expected return (block_i, block_j)")
     bi, bj = it.returns[0].data["value"][1]
-    okneg = bj == ("un", "-", bi) or bj == ("bin", "*", C(-1), bi) or bj == ("bin", "*", bi, C(-1))
-    run.ob("R-ALG", fq, f"{ndim}D:block_j", okneg, "the block centred on j is the negated block centred on i", show(bj)[:80],
-           witness=None if okneg else "d2U/dr_i dr_j is not -d2U/dr_i dr_i of the pair", loc=fi.loc())
-    entries = {}
-    for ev in stores(it):
-        tg = ev.data["target"]
-        if tg[1] == bi and tg[2][0] == "tuple" and len(tg[2][1]) == 2 and all(is_const(x) for x in tg[2][1]):
-            a, b = tg[2][1][0][1], tg[2][1][1][1]
-            if ev.data["op"] is not None:
-                run.ob("R-ALG", fq, f"{ndim}D:[{a},{b}]", None, "block entry assigned", "augmented store", loc=loc_of(it, ev))
-                continue
-            entries[(a, b)] = ev
-    for a in range(ndim):
-        for b in range(ndim):
-            key = f"{ndim}D:[{a},{b}]"
-            if (a, b) not in entries:
-                run.ob("R-ALG", fq, key, False, f"block entry [{a},{b}] is assigned", "never stored (stays 0)",
-                       witness=f"entry [{a},{b}] of the {ndim}D pair block is left at zero", loc=fi.loc())
-                continue
-            ev = entries[(a, b)]
-            ref = s2 * xs[a] * xs[b] / r ** 2 + (s1 - s1rc) * ((1 if a == b else 0) / r - xs[a] * xs[b] / r ** 3)
-            check_algebra(run, "R-ALG", it, key, f"entry [{a},{b}] = s2 x{a} x{b}/r^2 + (s1-s1rc)(delta/r - x{a} x{b}/r^3)",
-                          ev.data["value"], ref, atom_of, loc_of(it, ev))
-            # evenness under r -> -r (block(i,j) == block(j,i))
-            tr = S.Translator(atom_of)
-            try:
-                g = tr.tr(ev.data["value"])
+    # ---- symbolic small-matrix evaluation of both blocks (element stores into a zeros block, or outer/eye matrix forms)
+    class NoMat(Exception):
+        pass
+    Rv = sp.Matrix(list(xs[:ndim]))
+
+    def mat(t):
+        r_ = atom_of(t)
+        if r_ is not None:
+            return r_
+        k = t[0]
+        if t == R:
+            return Rv
+        if k == "const" and isinstance(t[1], (int, float)) and not isinstance(t[1], bool):
+            return S.num(t[1])
+        if k == "call":
+            f, a_ = t[1], t[2]
+            if f in ("numpy.asarray", "numpy.array", "numpy.asanyarray", ".copy", ".astype", "numpy.atleast_1d") and a_:
+                return mat(a_[0])
+            if f == "numpy.outer" and len(a_) == 2:
+                x, y = mat(a_[0]), mat(a_[1])
+                return x * y.T
+            if f in ("numpy.eye", "numpy.identity") and a_:
+                return sp.eye(ndim)
+            if f in ("numpy.dot", "numpy.inner", "numpy.vdot") and len(a_) == 2:
+                x, y = mat(a_[0]), mat(a_[1])
+                if isinstance(x, sp.MatrixBase) and isinstance(y, sp.MatrixBase) and x.shape == y.shape == (ndim, 1):
+                    return r ** 2 if x == y == Rv else (x.T * y)[0, 0]
+                if isinstance(x, sp.MatrixBase) and isinstance(y, sp.MatrixBase):
+                    return x * y
+                return x * y
+            if f in ("numpy.negative",) and a_:
+                return -mat(a_[0])
+            if f in ("numpy.square",) and a_:
+                x = mat(a_[0])
+                if isinstance(x, sp.MatrixBase):
+                    raise NoMat("square of matrix")
+                return x ** 2
+            if f in (".sum", "numpy.sum") and len(a_) == 1 and not t[3]:
+                inner = a_[0]
+                if inner in (("bin", "*", R, R), ("call", "numpy.square", (R,), ()), ("bin", "**", R, C(2))):
+                    return r ** 2
+                raise NoMat("sum")
+            if f == "numpy.zeros" and a_:
+                M = sp.zeros(ndim, ndim)
+                for ev_ in stores(it):
+                    tg = ev_.data["target"]
+                    if tg[1] == t and tg[2][0] == "tuple" and len(tg[2][1]) == 2 and all(is_const(x) for x in tg[2][1]) and ev_.data["op"] is None:
+                        i_, j_ = tg[2][1][0][1], tg[2][1][1][1]
+                        if i_ < ndim and j_ < ndim:
+                            M[i_, j_] = mat(ev_.data["value"])
+                return M
+            if f in ("numpy.sqrt", "math.sqrt") and a_:
+                x = mat(a_[0])
+                if x == r ** 2:
+                    return r
+                return sp.sqrt(x)
+            raise NoMat(f"call {f}")
+        if k == "bin":
+            op = t[1]
+            x, y = mat(t[2]), mat(t[3])
+            xm, ym = isinstance(x, sp.MatrixBase), isinstance(y, sp.MatrixBase)
+            if op == "+":
+                return x + y if xm == ym else (_ for _ in ()).throw(NoMat("scalar + matrix"))
+            if op == "-":
+                return x - y if xm == ym else (_ for _ in ()).throw(NoMat("scalar - matrix"))
+            if op == "*":
+                if xm and ym:
+                    return x.multiply_elementwise(y)
+                return x * y
+            if op == "/":
+                if ym:
+                    raise NoMat("division by matrix")
+                return x / y
+            if op == "**":
+                if xm or ym:
+                    raise NoMat("matrix power")
+                return x ** y
+            if op == "@":
+                return x * y
+            raise NoMat(f"operator {op}")
+        if k == "un" and t[1] == "-":
+            return -mat(t[2])
+        raise NoMat(show(t)[:50])
+    ref_m = sp.Matrix(ndim, ndim, lambda a_, b_: s2 * xs[a_] * xs[b_] / r ** 2 + (s1 - s1rc) * ((1 if a_ == b_ else 0) / r - xs[a_] * xs[b_] / r ** 3))
+    r_rel = {r ** 2: sum(x_ ** 2 for x_ in xs[:ndim])}
+    try:
+        Mi, Mj = mat(bi), mat(bj)
+        if not (isinstance(Mi, sp.MatrixBase) and Mi.shape == (ndim, ndim) and isinstance(Mj, sp.MatrixBase) and Mj.shape == (ndim, ndim)):
+            raise NoMat("blocks are not d x d matrices")
+
+        def zero(e):
+            # identities may use r^2 = x.x
+            e = sp.together(sp.expand(e))
+            if sp.cancel(e) == 0:
+                return True
+            e2 = sp.simplify(e.subs(r, sp.sqrt(sum(x_ ** 2 for x_ in xs[:ndim]))))
+            return e2 == 0
+        okneg = all(zero(Mi[a_, b_] + Mj[a_, b_]) for a_ in range(ndim) for b_ in range(ndim))
+        run.ob("R-ALG", fq, f"{ndim}D:block_j", okneg, "the block centred on j is the negated block centred on i (entry by entry)", show(bj)[:80],
+               witness=None if okneg else "d2U/dr_i dr_j is not -d2U/dr_i dr_i of the pair", loc=fi.loc())
+        for a_ in range(ndim):
+            for b_ in range(ndim):
+                key = f"{ndim}D:[{a_},{b_}]"
+                d_ = Mi[a_, b_] - ref_m[a_, b_]
+                ok = zero(d_)
+                wit = None
+                if not ok:
+                    pt = {xs[0]: sp.Rational(3, 7), xs[1]: sp.Rational(5, 11), xs[2]: sp.Rational(13, 9), s1: sp.Rational(2, 3), s1rc: sp.Rational(7, 5), s2: sp.Rational(11, 13)}
+                    rr_ = sp.sqrt(sum(pt[x_] ** 2 for x_ in xs[:ndim]))
+                    val = sp.simplify(d_.subs(pt).subs(r, rr_))
+                    if val != 0 and not val.free_symbols:
+                        wit = f"x={[str(pt[x_]) for x_ in xs[:ndim]]}, s1=2/3, s1rc=7/5, s2=11/13: entry differs from the reference by {sp.N(val, 8)}"
+                    else:
+                        ok = None
+                run.ob("R-ALG", fq, key, ok, f"entry [{a_},{b_}] = s2 x{a_} x{b_}/r^2 + (s1-s1rc)(delta/r - x{a_} x{b_}/r^3)", f"code: {sp.sstr(sp.simplify(Mi[a_, b_]))[:140]}",
+                       witness=wit, loc=fi.loc())
+                g = Mi[a_, b_]
                 gm = g.subs({xs[0]: -xs[0], xs[1]: -xs[1], xs[2]: -xs[2]}, simultaneous=True)
-                ok, how = S.decide_equal(g, gm)
-                run.ob("R-ALG", fq, key + ":even", ok if not tr.atoms or ok else None, f"entry [{a},{b}] is even in the pair vector (pair symmetry)", how,
-                       witness=None if ok else how, loc=loc_of(it, ev))
-            except Exception as e:  # noqa
-                run.ob("R-ALG", fq, key + ":even", None, "evenness", str(e), loc=loc_of(it, ev))
+                oke = zero(g - gm)
+                run.ob("R-ALG", fq, key + ":even", oke if oke else None, f"entry [{a_},{b_}] is even in the pair vector (pair symmetry)", "", loc=fi.loc())
+        return
+    except NoMat as ex:
+        run.ob("R-ALG", fq, f"{ndim}D:block", None, "pair block reducible to a symbolic d x d matrix", f"construct outside the small-matrix grammar: {ex}", loc=fi.loc())
+        return
+    entries = {}
     extra = [k for k in entries if k[0] >= ndim or k[1] >= ndim]
     if extra:
         run.ob("R-ALG", fq, f"{ndim}D:extent", False, "no entry outside the ndim x ndim block is written", f"writes {extra}",
